@@ -181,6 +181,22 @@ def regeneration(dim, k, g):
                 if a != b:
                     fail(who + "value %r at %r, a newly built GKLS(%d, %d) gives %r (ball %d, radius fraction %r)" %
                          (a, y.tolist(), dim, k, b, i, t))
+    # ... and again when the object is asked for numbers it has generated before (k0, then k once more)
+    h.function.SetFunctionNumber(k0)
+    M0, f0, rho0 = tables(h)
+    if not (np.array_equal(Mh, M0) and np.array_equal(fh, f0) and np.array_equal(rhoh, rho0)):
+        fail("GKLS(%d, %d) asked for a second time on one object (after GKLS(%d, %d)): its minimiser tables differ from "
+             "those it had the first time" % (dim, k0, dim, k))
+    h.function.SetFunctionNumber(k)
+    M3, f3, rho3 = tables(h)
+    if not (np.array_equal(M, M3) and np.array_equal(f, f3) and np.array_equal(rho, rho3)):
+        fail(who + "asked for the same number a second time (after going back to %d), its minimiser tables differ from "
+             "those of a newly built GKLS(%d, %d)" % (k0, dim, k))
+    for i in (0, 1, 5):
+        y = np.clip(M[i] + dirs[(i + 1) % dim] * rho[i] * 0.5, -1, 1)
+        if bench.real_eval(h, y) != bench.real_eval(g, y):
+            fail(who + "asked for the same number a second time: value %r at %r, a newly built GKLS(%d, %d) gives %r" %
+                 (bench.real_eval(h, y), y.tolist(), dim, k, bench.real_eval(g, y)))
 
 
 unit = st.floats(0.0, 1.0, allow_nan=False)
